@@ -11,22 +11,44 @@ SPEC = {
             "the definition), each contains it, has dimension l, is recognised by is_face_of; conversely the simplex is listed among the "
             "faces of its listed cofaces and among the cofaces of its listed faces; is_face_of equals vertex-set inclusion against every "
             "simplex of the same star (both directions) and against random faces / cofaces / cofaces of faces / translates / neighbours. "
+            "shapes: EVERY composition of d+1 as part sizes, d = 5, 6 (7 in thorough), random element assignment, ALL coface dimensions "
+            "without a cap, judged by listed count == closed form sum prod (m_i+1)! S(n_i, m_i+1), every listed coface valid and all pairwise "
+            "distinct (exact 2-bit-per-coordinate encoding) instead of an oracle set. box_d2 / box_d3: the full is_face_of table of all simplices "
+            "whose minimal vertex lies in {-1,0,1}^d (54 / 702 simplices, every ordered pair, both directions) against vertex-set inclusion. "
+            "The lattice translation unit is also built with g++'s ASan+UBSan (unit lattice_gcc, configs g_*: g++ reports loads of invalid bool "
+            "values in copied end iterators, clang does not) and with Vertex = vector<long>, parts = vector<unsigned> (unit lattice_alt, alt_*). "
+            "REPRESENTATION LEVEL (operator==, documented as equality of vertex and ordered partition): every face-listed, coface-listed and "
+            "located representation is == to the representation of its vertex set whose parts are listed in increasing order; a located simplex "
+            "is == to the one face and the one coface of its own dimension, to a listed face of its listed cofacets and to a listed cofacet of "
+            "its listed facets; the same in the coface<->face converse of the lattice unit for every library-produced simplex. "
             "LOCATE units: a case is one triangulation (Freudenthal default / matrix+offset through every constructor and change_* path / "
-            "Coxeter type A, d = 1..6, scale in {.5,1,2,3,4}) queried at ~25 points: lattice vertices, generic points, barycenter() and "
+            "Coxeter type A, d = 1..6, scale in {.5,1,2,3,4}; fk_scales: identity map, d in {1..6,8,10}, scale in {2^-10, 1e-3, 1000, 2^20}; "
+            "fk_aniso: singular values 1e-2..1e2 between two random rotations, minimality judged only above the conditioning noise "
+            "64 eps scale (|x|+|b|) / s_min) queried at ~25 points: lattice vertices, generic points, barycenter() and "
             "dyadic-weight points of faces of a located simplex, points with weight 2^-18 resp. 2^-40 on the extra vertices of a coface. "
             "For each: the returned representation is an ordered partition of 0..d with d last, its vertices form a simplex, the point is a "
             "convex combination of their Cartesian coordinates (Eigen least squares, residual and weights at 1e-7), no returned vertex has "
             "weight <= 1e-10 (documented snapping 1e-9), every vertex with weight > 1e-6 in any top simplex {y, y+e_p(1), ...} containing "
             "the point (all permutations, all unit cubes within 1e-6) is returned, and in the exact set-up (identity map, power-of-two "
             "scale, dyadic weights) the returned vertex set is exactly the expected face. cartesian_coordinates and barycenter are compared "
-            "with M v / scale + b and the vertex mean. "
+            "with M v / scale + b and the vertex mean. Every query is repeated through another documented argument form (Eigen::VectorXd, "
+            "std::array, std::deque, scale argument omitted when it is 1) and must return the == representation. "
+            "fk_wide: identity map, scale 2^-10..2^20, d in {1..6,8,10}, lattice coordinates up to 2^30 with fractional parts in 1/1024 "
+            "(vertices, generic, tied sixteenths; also as vector<float> where representable): the returned vertex set must equal an integer-only "
+            "oracle (floor vertex plus one vertex per distinct positive fractional value); cartesian_coordinates exact. "
             "non-trivial = lattice case whose simplex has 0 < dimension < d (proper faces and proper cofaces), locate case that located a "
             "face point of a face with 0 < dimension < d; distinct by hash of the case history.",
     "assumptions": [
         "simplices handed to the library are ordered partitions of {0..d} into non-empty parts with d in the last part (what locate_point, "
-        "face_range and coface_range produce, and what Coface_iterator requires); the order inside a part is arbitrary",
-        "face_range / coface_range are called with dimensions inside their documented ranges only",
-        "lattice coordinates stay below 2^11, matrices have condition number < ~30, scales in [0.5, 4]",
+        "face_range and coface_range produce, and what Coface_iterator requires); the order inside a part of a harness-built simplex is "
+        "arbitrary. Representations with d outside the last part are NOT exercised",
+        "the canonical representation of a simplex lists every part in increasing order (what face_range / coface_range produce and what the "
+        "module's own freud_triang_test expects of locate_point); operator== is only demanded between library-produced representations and "
+        "harness-built ones in that form, never of a harness-built representation with shuffled parts",
+        "face_range / coface_range are called with dimensions inside their documented ranges only (face_range(k > dim) is not exercised)",
+        "lattice coordinates stay below 2^31 (Vertex coordinates are int; up to 2^30 in the exact class fk_wide, below 2^11 where a floating "
+        "point solve judges the answer); matrices have condition number < ~30 except the fk_aniso class (1e4, tolerance scaled); scales in "
+        "[0.5, 4] with matrices, in [2^-10, 2^20] with the identity map",
         "a returned vertex is called negligible below weight 1e-10 and mandatory above 1e-6; the library's own merging threshold is 1e-9 in "
         "lattice coordinates, weights in between are accepted either way",
         "trusted: fk_oracle.h (chains in a unit cube), Eigen's dense solvers, libstdc++",
@@ -35,28 +57,61 @@ SPEC = {
         {"name": "lattice", "src": ["c20_lattice.cpp"], "variant": "asan",
          "configs": {"star_d1": {"quick": 30, "thorough": 300}, "star_d2": {"quick": 130, "thorough": 1300},
                      "star_d3": {"quick": 300, "thorough": 3000}, "star_d4": {"quick": 541, "thorough": 2705},
-                     "rand_lo": {"quick": 1500, "thorough": 30000}, "rand_hi": {"quick": 400, "thorough": 6000}},
+                     "rand_lo": {"quick": 1500, "thorough": 30000}, "rand_hi": {"quick": 400, "thorough": 6000},
+                     "shapes": {"quick": 192, "thorough": 1120},
+                     "box_d2": {"quick": 108, "thorough": 540}, "box_d3": {"quick": 702, "thorough": 3510}},
+         "chunk": 10},
+        # the same translation unit under g++'s sanitizers (invalid bool loads in copied end iterators are only reported by g++)
+        {"name": "lattice_gcc", "src": ["c20_lattice.cpp"], "variant": "gasan", "defs": ["C20_GCC"],
+         "configs": {"g_star_d3": {"quick": 75, "thorough": 300}, "g_rand_lo": {"quick": 120, "thorough": 3000},
+                     "g_rand_hi": {"quick": 30, "thorough": 600}, "g_shapes": {"quick": 32, "thorough": 224}},
+         "chunk": 10},
+        # the same translation unit with Vertex = vector<long>, parts = vector<unsigned>
+        {"name": "lattice_alt", "src": ["c20_lattice.cpp"], "variant": "asan", "defs": ["C20_ALT", "C20_COORD=long", "C20_INDEX=unsigned"],
+         "configs": {"alt_star_d1": {"quick": 3, "thorough": 30}, "alt_star_d2": {"quick": 13, "thorough": 130},
+                     "alt_star_d3": {"quick": 75, "thorough": 750}, "alt_rand_lo": {"quick": 200, "thorough": 3000},
+                     "alt_rand_hi": {"quick": 40, "thorough": 600}, "alt_shapes": {"quick": 96, "thorough": 224},
+                     "alt_box_d2": {"quick": 54, "thorough": 108}},
          "chunk": 10},
         {"name": "locate_fk", "src": ["c20_locate.cpp"], "variant": "asan",
-         "configs": {"fk_identity": {"quick": 400, "thorough": 8000}, "fk_affine": {"quick": 400, "thorough": 8000}}, "chunk": 10},
+         "configs": {"fk_identity": {"quick": 400, "thorough": 8000}, "fk_affine": {"quick": 400, "thorough": 8000},
+                     "fk_scales": {"quick": 240, "thorough": 2400}, "fk_aniso": {"quick": 160, "thorough": 2000},
+                     "fk_wide": {"quick": 240, "thorough": 4000}}, "chunk": 10},
         {"name": "locate_cox", "src": ["c20_locate.cpp"], "variant": "asan", "defs": ["C20_COX"],
          "configs": {"coxeter": {"quick": 400, "thorough": 8000}}, "chunk": 10},
     ],
     "floors": {
         "quick": {"exh.star_d1.round0": 3, "exh.star_d2.round0": 13, "exh.star_d3.round0": 75, "exh.star_d4.round0": 541,
-                  "obs.coface_range.proper_nontrivial": 15000, "obs.cofaces_listed": 500000, "obs.faces_listed": 100000,
-                  "obs.is_face_of.want_true": 40000, "obs.is_face_of.want_false": 300000,
-                  "obs.converse.face_of_coface": 100000, "obs.converse.coface_of_face": 12000,
-                  "level2.face": 5000, "level2.coface": 2000, "shape.dim3.d6": 8, "shape.dim0.d5": 10,
-                  "obs.locate_point": 14000, "obs.locate_point.lattice_vertex": 1000, "obs.locate_point.generic": 1000,
+                  "obs.coface_range.proper_nontrivial": 20000, "obs.cofaces_listed": 800000, "obs.faces_listed": 200000,
+                  "obs.is_face_of.want_true": 60000, "obs.is_face_of.want_false": 850000,
+                  "obs.converse.face_of_coface": 240000, "obs.converse.coface_of_face": 70000,
+                  "level2.face": 7000, "level2.coface": 3000, "shape.dim3.d6": 8, "shape.dim0.d5": 10,
+                  "obs.locate_point": 23000, "obs.locate_point.lattice_vertex": 1000, "obs.locate_point.generic": 1000,
                   "obs.locate_point.face_barycenter": 4000, "obs.locate_point.face_dyadic_point": 4000,
                   "obs.locate_point.near_face_2e-18": 1200, "obs.locate_point.near_face_2e-40": 1200,
                   "obs.enumeration": 10000, "obs.barycenter": 4000, "obs.cartesian_coordinates": 1000,
                   "setup.fk_identity,exact": 120, "setup.fk_identity,scale3": 30, "setup.fk_affine.shear": 60,
                   "setup.fk_affine.rot_scale": 90, "setup.fk_affine.ctor2": 40, "setup.coxeter.offset": 80, "setup.coxeter.origin": 80,
                   "shape.located_dim6": 150, "shape.face_point_dim3": 600,
-                  "_distinct_nontrivial": 1200},
+                  # audit gaps now exercised (floors ~ half of what seeds 1-3 measure; the exh.* ones are exact)
+                  "exh.shapes_d5.round0": 32, "exh.shapes_d6.round0": 64, "exh.box_d2.round0": 54, "exh.box_d3.round0": 702,
+                  "exh.g_star_d3.round0": 75, "exh.g_shapes_d5.round0": 32,
+                  "exh.alt_star_d3.round0": 75, "exh.alt_shapes_d6.round0": 64, "exh.alt_box_d2.round0": 54,
+                  "obs.coface_range.uncapped": 600, "obs.cofaces_listed.shapes": 110000, "pairs.box_table_entries": 500000,
+                  "cmp.rep.canonical": 1000000, "cmp.rep.eq_self_listed": 45000,
+                  "obs.converse.face_of_coface_eq": 230000, "obs.converse.coface_of_face_eq": 70000,
+                  "cmp.locate.argument_form_independent": 20000, "obs.locate_point.form.eigen_vector": 6500,
+                  "obs.locate_point.form.std_array": 5900, "obs.locate_point.form.std_deque": 6800,
+                  "obs.locate_point.form.eigen_vector,scale_omitted": 900, "obs.locate_point.form.float_vector": 90,
+                  "obs.locate_point.coordinate_bits30": 900, "obs.locate_point.wide.tied_16ths": 900,
+                  "obs.locate_point.wide.generic_1024ths": 900, "obs.locate_point.wide.lattice_vertex": 900,
+                  "setup.d_8_10": 50, "shape.located_dim10": 19, "shape.located_dim8": 28, "shape.wide_located_dim10": 130,
+                  "setup.fk_affine.aniso_cond1e4": 80, "setup.fk_identity,exact,scale_extreme": 55, "setup.fk_identity,scale_nondyadic": 55,
+                  "setup.scale_index0": 25, "setup.scale_index1": 25, "setup.scale_index2": 25, "setup.scale_index3": 25,
+                  "_distinct_nontrivial": 2000},
         "thorough": {"exh.star_d1.round0": 3, "exh.star_d2.round0": 13, "exh.star_d3.round0": 75, "exh.star_d4.round0": 541,
+                     "exh.shapes_d5.round0": 32, "exh.shapes_d6.round0": 64, "exh.shapes_d7.round0": 128,
+                     "exh.box_d2.round0": 54, "exh.box_d3.round0": 702, "exh.g_shapes_d7.round0": 128,
                      "obs.coface_range.proper_nontrivial": 200000, "obs.cofaces_listed": 6000000, "obs.is_face_of.want_true": 500000,
                      "obs.locate_point": 400000, "obs.enumeration": 200000, "obs.locate_point.near_face_2e-40": 40000,
                      "_distinct_nontrivial": 20000},
@@ -64,7 +119,9 @@ SPEC = {
     "exhaustive": {"quick": False, "thorough": True},
     "exhaustive_note": "exhaustive only for this sub-space: every simplex of every dimension incident to one lattice vertex, ambient dimension "
                        "1..4 (3 / 13 / 75 / 541 simplices = every ordered set partition shape of {0..d}); each with all its faces, all its "
-                       "cofaces of every dimension and the full is_face_of table of the star. Everything else (d = 5, 6, point location) is sampled.",
+                       "cofaces of every dimension and the full is_face_of table of the star; every part-size composition of d+1 for d = 5..7 "
+                       "with all its coface sets (one random element assignment per round); the is_face_of table of all simplices based in "
+                       "{-1,0,1}^d for d = 2, 3. Everything else (random simplices of d = 5, 6, point location) is sampled.",
     "manifest": {
         "text": "Runtime monitor under ASan+UBSan. Face lattice: every simplex around a lattice vertex for ambient dimension <= 4 (exhaustive: all "
                 "ordered set partition shapes) plus random simplices up to dimension 6 are pushed through vertex_range / face_range / "
@@ -75,11 +132,17 @@ SPEC = {
                 "triangulations, d <= 6, scales .5..4: the returned simplex must be a simplex, contain the point (barycentric solve in "
                 "Cartesian coordinates), keep every vertex of non-negligible weight in every top simplex containing the point (brute-force "
                 "enumeration), carry no vertex of weight <= 1e-10, and be exactly the constructed face where arithmetic is exact. "
+                "Also: all part-size compositions for d = 5..7 with uncapped coface sets (count / validity / distinctness), the is_face_of "
+                "table of a 3^d box of base vertices, a g++-sanitizer build and a vector<long> / vector<unsigned> instantiation of the "
+                "lattice unit, scales 2^-10..2^20, d = 8 and 10, lattice coordinates up to 2^30 against an integer oracle, a condition-1e4 "
+                "map, Eigen / std::array / std::deque / float points and the defaulted scale, and operator== between the representations "
+                "that locate_point, face_range and coface_range give of one simplex. "
                 "Held-on-what-was-observed, not a proof; adequate because the combinatorics depend only on the ordered-partition shape "
                 "(all enumerated up to d = 4) and point location only on the order and gaps of d fractional parts, which the constructed "
                 "points hit on every face type.",
         "note": "trusted base: harness/c20_coxeter/fk_oracle.h, Eigen dense solvers, libstdc++. Inputs are ordered partitions with d in the last "
-                "part; coordinates small; matrices well conditioned; weights between 1e-10 and 1e-6 are accepted either way.",
-        "technique": "runtime monitoring: exhaustive small-scope enumeration + randomized inputs against a reference-model oracle, under AddressSanitizer/UBSan",
+                "part; int coordinates; matrices well conditioned (one condition-1e4 class with scaled tolerance); weights between 1e-10 and 1e-6 "
+                "are accepted either way; canonical representation = parts listed in increasing order.",
+        "technique": "runtime monitoring: exhaustive small-scope enumeration + randomized inputs against a reference-model oracle, under AddressSanitizer/UBSan (clang and g++)",
     },
 }
